@@ -4,6 +4,7 @@ mod gram;
 mod props;
 mod refs;
 mod refs_lr;
+mod scan;
 mod srcval;
 
 use common::Tier;
